@@ -92,7 +92,7 @@ def _diffence_between(
         return [x for x in new if x not in old]
 
     if isinstance(old, SupportsSubtraction) and isinstance(new, SupportsSubtraction):
-        return new.__sub__(old)
+        return new - old
 
     return None
 
